@@ -68,6 +68,8 @@ pub struct Inner {
     pub pure_out: Option<String>,
 }
 
+type Detached = Box<dyn FnOnce() + Send + 'static>;
+
 struct SchedState {
     active: bool,
     current: u32,
@@ -93,6 +95,9 @@ struct SchedState {
     panics: Vec<String>,
     handles: Vec<std::thread::JoinHandle<()>>,
     job: Option<JobPtr>,
+    /// `rayon::spawn`ed jobs, by the worker that spawned them: like rayon, a worker gets to them
+    /// when it returns to the scheduler, i.e. after the group it is folding
+    detached: Vec<(u32, Detached)>,
 }
 
 pub struct SimWorld {
@@ -242,6 +247,7 @@ impl SimWorld {
             panics: vec![],
             handles: vec![],
             job: None,
+            detached: vec![],
         };
         SimWorld {
             inner: Mutex::new(inner),
@@ -443,6 +449,7 @@ impl SimWorld {
                 let msg = panic_message(&p);
                 self.lock_sched().panics.push(msg);
             }
+            self.run_detached_of(id);
         }
         let mut st = self.lock_sched();
         st.runnable[id as usize] = false;
@@ -452,6 +459,23 @@ impl SimWorld {
             0
         };
         self.hand_over(&mut st, next, Some(job));
+    }
+
+    /// Runs the jobs that worker `id` handed to `rayon::spawn` (it has returned to the scheduler).
+    fn run_detached_of(&self, id: u32) {
+        loop {
+            let job = {
+                let mut st = self.lock_sched();
+                match st.detached.iter().position(|(w, _)| *w == id) {
+                    Some(ix) => Some(st.detached.remove(ix).1),
+                    None => None,
+                }
+            };
+            match job {
+                Some(j) => j(),
+                None => break,
+            }
+        }
     }
 
     /// A yield point: the holder of the baton lets the scheduler name the next runner.
@@ -714,6 +738,7 @@ impl SimWorld {
                     panics: vec![],
                     handles: vec![],
                     job: None,
+                    detached: vec![],
                 };
                 &dummy
             }
@@ -1378,6 +1403,7 @@ impl World for WorldRef {
                 let Some(range) = chunk else { break };
                 w.lock().failed_in_group.insert(me(), false);
                 job(range);
+                w.run_detached_of(me());
             }
             return;
         }
@@ -1426,6 +1452,16 @@ impl World for WorldRef {
             }
             w.lock_sched().job = None;
         }
+        loop {
+            let job = {
+                let mut st = w.lock_sched();
+                if st.detached.is_empty() { None } else { Some(st.detached.remove(0).1) }
+            };
+            match job {
+                Some(j) => j(),
+                None => break,
+            }
+        }
         let panics = std::mem::take(&mut w.lock_sched().panics);
         if let Some(first) = panics.into_iter().next() {
             std::panic::resume_unwind(Box::new(first));
@@ -1434,6 +1470,27 @@ impl World for WorldRef {
 
     fn pool_threads(&self) -> usize {
         self.0.lock().sc.workers.max(1)
+    }
+
+    fn spawn_detached(&self, job: Box<dyn FnOnce() + Send + 'static>) {
+        let w = self.0;
+        let mut st = w.lock_sched();
+        st.detached.push((me(), job));
+    }
+
+    fn stderr_line_checked(&self, text: &str) -> io::Result<()> {
+        let w = self.0;
+        let (mut g, seq, _, fault) = w.begin("<stderr>", OpKind::Eprint, "eprintln");
+        let r = match &fault {
+            Some(k) if !k.is_benign() => Err(fault_errno(k)),
+            _ => {
+                g.stderr_lines.push(text.to_string());
+                Ok(())
+            }
+        };
+        let res = r.as_ref().err().map(|e| -(*e as i64)).unwrap_or(0);
+        w.end(&mut g, seq, "<stderr>", OpKind::Eprint, text.len() as i64, res, fault);
+        r.map_err(errno)
     }
 
     fn yield_point(&self, tag: &'static str) {
